@@ -76,6 +76,30 @@ def make_inputs(d, rng):
     filegen.write_sage(files["Sage"], psms)
     files["DIA-NN"] = os.path.join(d, "report.tsv")
     filegen.write_diann(files["DIA-NN"], psms)
+    # the same PSMs with their modifications spelled out (decimal mass shifts, signed shifts, an N-terminal modification): the
+    # spelling of a modification must not change any table
+    def decorate(pep):
+        out = pep
+        for aa, tag in (("M", rng.choice(["[15.9949]", "[+15.995]", "(ox)"])), ("C", rng.choice(["[57.0215]", "[+57.0215]"]))):
+            if aa in out and rng.random() < 0.7:
+                out = out.replace(aa, aa + tag, 1)
+        if rng.random() < 0.3:
+            out = rng.choice(["[42.0106]-", "[+42.0106]-"]) + out
+        return out
+    dec = []
+    for q in psms:
+        m = decorate(q["peptide"])
+        dec.append(dict(q, mod=m, mod_fp=m if m != q["peptide"] else "", mod_sage=m, mod_diann=m))
+    dd = os.path.join(d, "decorated")
+    os.makedirs(dd, exist_ok=True)
+    files["decorated"] = {"MaxQuant": os.path.join(dd, "evidence.txt"), "Perc": os.path.join(dd, "perc.tab"), "FragPipe": os.path.join(dd, "psm.tsv"),
+                          "Sage": os.path.join(dd, "results.sage.tsv"), "DIA-NN": os.path.join(dd, "report.tsv")}
+    mq_dec = [dict(next(x for x in dec if x["id"] == q["id"]), pep=q["pep"]) for q in mq_psms]
+    filegen.write_maxquant(files["decorated"]["MaxQuant"], mq_dec)
+    filegen.write_percolator(files["decorated"]["Perc"], dec)
+    filegen.write_fragpipe(files["decorated"]["FragPipe"], dec)
+    filegen.write_sage(files["decorated"]["Sage"], dec)
+    filegen.write_diann(files["decorated"]["DIA-NN"], dec)
     return files, psms
 
 
@@ -146,6 +170,16 @@ def cli_sweep(r, n_inputs):
             h, rows = read_table(out)
             v = table_violation(h, rows)
             res.append(("fail", m, f"output table: {v}") if v else ("completed", m, len(rows)))
+        if k == 0 and os.path.exists(out):
+            # modification spelling: the same PSMs with decimal / signed mass shifts and N-terminal modifications give the same table
+            outd = os.path.join(d, f"out_decorated_{m}.txt")
+            rc, err = run_cli([FLAG[kind], files["decorated"][kind], "--methods", m, "--protein_groups_out", outd] +
+                              (["--fasta", files["fasta"]] if rem else []), env)
+            a = open(out, "rb").read()
+            b = open(outd, "rb").read() if os.path.exists(outd) else None
+            if a != b:
+                res.append(("fail", m, f"the table changes when the modifications of the same PSMs are spelled out ({kind} input): "
+                                      f"{len(a.splitlines())} lines versus {None if b is None else len(b.splitlines())} (exit {rc}: {err[-200:]})"))
         if rem and k == 0:
             out2 = os.path.join(d, f"out_nofasta_{m}.txt")
             rc, err = run_cli([FLAG[kind], files[kind], "--methods", m, "--protein_groups_out", out2], env)
